@@ -291,3 +291,52 @@ func VH_C09_Copies(kind int) {
 	vAssert(proc && err == nil, "line consumed")
 	vhNoAlias(s, line)
 }
+
+// vhStall answers (0, nil) a fixed number of times before each delivery.
+type vhStall struct {
+	data   []byte
+	pos    int
+	stall  int
+	remain int
+}
+
+func (g *vhStall) Read(p []byte) (int, error) {
+	if g.remain > 0 {
+		g.remain--
+		return 0, nil
+	}
+	if g.pos == len(g.data) {
+		return 0, io.EOF
+	}
+	g.remain = g.stall
+	n := copy(p, g.data[g.pos:])
+	g.pos += n
+	return n, nil
+}
+
+// VH_C09_Retry: up to 99 consecutive empty reads before data are tolerated (the
+// result is the same as without them); the 100th makes io.ErrNoProgress.
+//
+//verif:prop C09
+//verif:param z 0,1,98,99,100
+//verif:bufsensitive
+//verif:maxsteps 20000000
+func VH_C09_Retry(z int) {
+	data := []byte{vChoose("b0", "ab\n"), vChoose("b1", "ab\n"), '\n'}
+	g := &vhStall{data: data, stall: z, remain: z}
+	r := &reader{rd: g}
+	var got []byte
+	var err error
+	for i := 0; i < 5 && err == nil; i++ {
+		var d []byte
+		d, err = r.readLine()
+		got = append(got, d...)
+	}
+	vReach("stalling source read")
+	if z < 100 {
+		vAssert(err == io.EOF, "fewer than 100 consecutive empty reads do not change the outcome")
+		vAssert(len(got) == len(data), "all data is returned despite empty reads")
+	} else {
+		vAssert(err == io.ErrNoProgress, "100 consecutive empty reads are reported as io.ErrNoProgress")
+	}
+}
